@@ -104,7 +104,7 @@ def run(summ, seed, per_def):
         if r[2] is None:
             res['evaluations'] += 1
             res['disagreements'].append({'def': r[0], 'vals': r[1], 'why': 'implementation raised %s on a well-typed edge' % (r[4][1],)})
-    CH = 150
+    CH = 80
     srcs = []
     for ci in range(0, len(good), CH):
         chunk = good[ci:ci + CH]
